@@ -539,6 +539,8 @@ struct ImplOut {
     off: usize,
     data: Vec<u32>,
     to_vec: Vec<u32>,
+    /// other copying routines, each as (name, elements in row-major order)
+    copies: Vec<(&'static str, Vec<u32>)>,
 }
 
 struct Source {
@@ -583,10 +585,24 @@ fn run_impl(src: &Source, ops: &[Op], shapes_after: &mut Vec<RefArr>) -> Result<
             .iter()
             .map(|i| *cur.get(i.as_slice()).expect("valid index rejected by get"))
             .collect();
+        // the other copying routines: map (map_into_slice), to_tensor, copy_from into a
+        // contiguous destination (copy_into_slice) and into a transposed one (copy_into)
+        let mut copies: Vec<(&'static str, Vec<u32>)> = vec![];
+        copies.push(("map", cur.map(|x| *x).data().expect("map result not contiguous").to_vec()));
+        copies.push(("to_tensor", cur.to_tensor().data().expect("to_tensor not contiguous").to_vec()));
+        let mut dest = Tensor::<u32>::zeros(shape.as_slice());
+        dest.copy_from(cur);
+        copies.push(("copy_from", all_indices(&shape).iter().map(|i| *dest.get(i.as_slice()).unwrap()).collect()));
+        let rev: Vec<usize> = shape.iter().rev().copied().collect();
+        let mut dest_t = Tensor::<u32>::zeros(rev.as_slice());
+        dest_t.transpose();
+        dest_t.copy_from(cur);
+        copies.push(("copy_from_transposed_dest", all_indices(&shape).iter().map(|i| *dest_t.get(i.as_slice()).unwrap()).collect()));
         ImplOut {
             strides: cur.strides().to_vec(),
             off: (cur.data_ptr() as usize - st.base as usize) / std::mem::size_of::<u32>(),
             to_vec: cur.to_vec(),
+            copies,
             shape,
             data,
         }
@@ -935,7 +951,22 @@ fn one(out: &mut Out, src: &Source, kind: &str, ops: &[Op]) {
     let ans = match &res {
         Ok(o) => {
             if fail.is_none() && o.to_vec != o.data {
-                fail = Some(format!("to_vec() = {} differs from element-wise get", hcommon::join(o.to_vec.iter(), ",")));
+                let at = o.to_vec.iter().zip(&o.data).position(|(a, b)| a != b).unwrap_or(o.data.len().min(o.to_vec.len()));
+                fail = Some(format!(
+                    "to_vec() differs from element-wise get at row-major position {at}: to_vec={} get={}",
+                    o.to_vec.get(at).map(|x| x.to_string()).unwrap_or("-".into()),
+                    o.data.get(at).map(|x| x.to_string()).unwrap_or("-".into())
+                ));
+            }
+            for (name, v) in &o.copies {
+                if fail.is_none() && *v != o.data {
+                    let at = v.iter().zip(&o.data).position(|(a, b)| a != b).unwrap_or(o.data.len().min(v.len()));
+                    fail = Some(format!(
+                        "{name}() differs from element-wise get at row-major position {at}: {name}={} get={}",
+                        v.get(at).map(|x| x.to_string()).unwrap_or("-".into()),
+                        o.data.get(at).map(|x| x.to_string()).unwrap_or("-".into())
+                    ));
+                }
             }
             out.bucket("result_ok");
             format!(
@@ -1026,6 +1057,89 @@ fn boundary_cases(out: &mut Out) {
     }
 }
 
+/// "Large copy" family: sources big enough to reach every branch of `copy_into_slice`
+/// (`copy.rs`): the blocked copy (`stride(3) % 16 == 0 && stride(3) >= 32`, 64x64 blocks of 4x4
+/// tiles, with its transposing kernel when the row stride is 1, plus narrow/short edge tiles),
+/// the bulk lane copy (`stride(3) == 1`, lane of >= 32 bytes), the generic nested loop, and the
+/// recursion for more than 4 non-mergeable axes.  Every case ends with the copying routines
+/// (`to_vec`, `map`, `to_tensor`, `copy_from` x2) compared with element-wise `get`.
+fn large_copy_cases(out: &mut Out, rng: &mut Rng, n: usize) {
+    let sizes: [usize; 16] = [1, 2, 3, 4, 5, 7, 8, 9, 12, 16, 17, 31, 33, 40, 64, 67];
+    let inner_strides: [usize; 10] = [1, 2, 3, 16, 32, 48, 64, 96, 128, 20];
+    for k in 0..n {
+        // innermost two axes
+        let (mut rows, mut cols) = (*rng.pick(&sizes), *rng.pick(&sizes));
+        while rows * cols > 1400 {
+            if rows > cols { rows = *rng.pick(&sizes[..10]) } else { cols = *rng.pick(&sizes[..10]) }
+        }
+        let cs = if k % 4 == 0 { 1 } else { *rng.pick(&inner_strides) };
+        // row stride: small (transposed source), or "past the row" (stepped rows), or arbitrary
+        let rs = match rng.below(5) {
+            0 => 1,
+            1 => 2 + rng.usize_below(3),
+            2 => cs * cols.max(1),
+            3 => cs * cols.max(1) + rng.usize_below(5),
+            _ => 1 + rng.usize_below(70),
+        };
+        let mut dims = vec![(rows, rs), (cols, cs)];
+        // outer axes
+        let budget = 1600 / (rows * cols).max(1);
+        let n_outer = if k % 7 == 6 { 3 + rng.usize_below(2) } else { rng.usize_below(3) };
+        let mut span = min_data_len(&dims).max(1);
+        let mut count = 1usize;
+        for _ in 0..n_outer {
+            let sz = 1 + rng.usize_below(3);
+            if count * sz > budget.max(1) {
+                break;
+            }
+            count *= sz;
+            let st = match rng.below(4) {
+                0 => 0,
+                1 => span + rng.usize_below(3),
+                _ => span,
+            };
+            dims.insert(0, (sz, st));
+            span = min_data_len(&dims).max(1);
+        }
+        if rng.chance(1, 6) {
+            // move the strided axis outwards
+            let r = dims.len();
+            dims.swap(r - 1, r - 2);
+        }
+        let storelen = min_data_len(&dims) + rng.usize_below(2);
+        if storelen > 12_000 {
+            continue;
+        }
+        let src = Source { dims, storelen };
+        let shape: Vec<usize> = src.dims.iter().map(|d| d.0).collect();
+        let numel: usize = shape.iter().product();
+        let r = shape.len();
+        let ops: Vec<Op> = match rng.below(8) {
+            0 => vec![],
+            1 => vec![Op::Tc],
+            2 => vec![Op::Rs(vec![numel])],
+            3 => vec![Op::Tr, Op::Tc],
+            4 => {
+                let mut p: Vec<usize> = (0..r).collect();
+                rng.shuffle(&mut p);
+                vec![Op::Perm(p), Op::Tc]
+            }
+            5 if r <= 4 => vec![Op::Slc((0..r).map(|_| Item::R(0, None, 1)).collect())],
+            6 => {
+                // stepped slice of the last axis, then copy
+                let step = 1 + rng.usize_below(3) as isize;
+                let mut items: Vec<Item> = (0..r - 1).map(|_| Item::R(0, None, 1)).collect();
+                items.push(Item::R(rng.usize_below(2) as isize, None, step));
+                vec![Op::Sl(items), Op::Tc]
+            }
+            _ => vec![Op::Ma, Op::Tc],
+        };
+        out.bucket("family_large_copy");
+        out.bucket(&format!("large_inner_stride_{cs}"));
+        one(out, &src, "large", &ops);
+    }
+}
+
 fn main() {
     let args = hcommon::parse_args();
     hcommon::quiet_panics();
@@ -1036,9 +1150,10 @@ fn run(args: &Args) {
     let mut out = Out::new(&args.out);
     let mut rng = Rng::new(args.seed);
     boundary_cases(&mut out);
+    large_copy_cases(&mut out, &mut rng, if args.thorough { 4000 } else { 400 });
     let n = if args.thorough { 400_000 } else { 40_000 };
     for i in 0..n {
         random_case(&mut out, &mut rng, i % 3 == 0);
     }
-    out.finish("exhaustive 1-D slice specs (start,stop in [-n-2,n+2] or omitted, steps ±1,±2,±3,±6, n=0..4) for slice and slice_copy; index+reversed-range combinations on transposed 2-D sources; random chains of 1..5 ops (perm tr mv sl slc sa ix bc ia ra sq ma spl spr rs tc, every third chain also app/clip) generated against the reference shape (1 in 14 ops deliberately invalid) on random sources: rank 0..4, sizes 0..4, contiguous / permuted / stepped / broadcast(stride 0) / arbitrary strides, optional slack at the end of the buffer; element values = storage offsets (unique ids); non-trivial = chain of >=2 ops with a result of >=2 elements; distinct by request text");
+    out.finish("large-copy family (400 / 4000 cases): 2..6-D sources with up to 1600 elements, inner sizes 1..67 straddling the 4x4 tile and 64x64 block of copy_blocked, innermost strides 1,2,3,16,20,32,48,64,96,128 and row strides 1..70 or past-the-row, optional broadcast/padded outer axes, followed by tc / rs / tr+tc / perm+tc / slc / stepped sl+tc / ma+tc, every case ending with to_vec, map, to_tensor and copy_from (contiguous and transposed destination) compared with element-wise get; exhaustive 1-D slice specs (start,stop in [-n-2,n+2] or omitted, steps ±1,±2,±3,±6, n=0..4) for slice and slice_copy; index+reversed-range combinations on transposed 2-D sources; random chains of 1..5 ops (perm tr mv sl slc sa ix bc ia ra sq ma spl spr rs tc, every third chain also app/clip) generated against the reference shape (1 in 14 ops deliberately invalid) on random sources: rank 0..4, sizes 0..4, contiguous / permuted / stepped / broadcast(stride 0) / arbitrary strides, optional slack at the end of the buffer; element values = storage offsets (unique ids); non-trivial = chain of >=2 ops with a result of >=2 elements; distinct by request text");
 }
